@@ -438,10 +438,12 @@ def live_generators(ctx):
                 results.append(glb["main"]())
             finally:
                 sys.settrace(None)
-        ths = [threading.Thread(target=body) for _ in range(nthreads)]
-        for t in ths:
+        # one thread AFTER the other (a later thread may get the identity of an earlier one and must inherit nothing): two threads
+        # hitting one tracepoint at the same instant can lose a fire to the limiter (a hit whose timestamp precedes the last recorded
+        # fire is refused), which is not this property's subject and would make "completions = entries" unsound
+        for _ in range(nthreads):
+            t = threading.Thread(target=body)
             t.start()
-        for t in ths:
             t.join()
         got = collections.Counter((tid, tp[4:]) for what, tp, tid, _p in world.log if what == "snapshot")
         pending = {k: len(v) for k, v in world.pending().items() if v}
